@@ -346,6 +346,19 @@ impl<'a> TransactionRebase<'a> {
             mem_wal_to_merge, ..
         } = &self.transaction.operation
         {
+            // Two writers must not both merge the same MemWAL generation.
+            if let Operation::Update {
+                mem_wal_to_merge: Some(committed_mem_wal),
+                ..
+            } = &other_transaction.operation
+            {
+                self.check_update_mem_wal_state_not_modify_same_mem_wal(
+                    std::slice::from_ref(committed_mem_wal),
+                    mem_wal_to_merge.as_slice(),
+                    other_transaction,
+                    other_version,
+                )?;
+            }
             match &other_transaction.operation {
                 Operation::CreateIndex { .. }
                 | Operation::ReserveFragments { .. }
@@ -1188,10 +1201,21 @@ impl<'a> TransactionRebase<'a> {
                 Operation::Update {
                     mem_wal_to_merge, ..
                 } => {
-                    if mem_wal_to_merge.is_some() {
-                        // TODO: This check could be more detailed, there is an assumption that
-                        //  once a MemWAL is sealed, there is no other operation that could change
-                        //  the state back to open, and at that point it can always be flushed.
+                    if let Some(committed_mem_wal) = mem_wal_to_merge {
+                        // The committed merge_insert marked this MemWAL as merged, so
+                        // this transaction must not change the same MemWAL.
+                        self.check_update_mem_wal_state_not_modify_same_mem_wal(
+                            std::slice::from_ref(committed_mem_wal),
+                            added,
+                            other_transaction,
+                            other_version,
+                        )?;
+                        self.check_update_mem_wal_state_not_modify_same_mem_wal(
+                            std::slice::from_ref(committed_mem_wal),
+                            updated,
+                            other_transaction,
+                            other_version,
+                        )?;
                         Ok(())
                     } else {
                         Err(self.incompatible_conflict_err(
